@@ -117,9 +117,60 @@ def gen_T18():
     ap = find_def(t, 'addPeriodicEvent', 'Schedule')
     need(ast.unparse(ap.body[-1]).replace('\n', ' ').split() ==
          'if now: return wrapper() else: return self.addEvent(wrapper, time.time() + t, name)'.split(), 'addPeriodicEvent: shape changed')
+    # ---- plugins/Scheduler/plugin.py: the id handling of _restoreEvents / _add / _repeat / remove ----
+    pt = tree('plugins/Scheduler/plugin.py')
+    rest = find_def(pt, '_restoreEvents', 'Scheduler')
+    loops = [n for n in rest.body if isinstance(n, ast.For)]
+    need(len(loops) == 1 and ast.unparse(loops[0].iter) == 'eventdict.items()' and ast.unparse(loops[0].target) == '(name, event)',
+         '_restoreEvents: loop over eventdict.items() changed')
+    ltry = [n for n in loops[0].body if isinstance(n, ast.Try)]
+    need(len(ltry) == 1 and len(ltry[0].handlers) == 1 and handler_names(ltry[0].handlers[0]) == ['AssertionError'],
+         '_restoreEvents: try/except AssertionError around the re-scheduling changed')
+    hnd = ltry[0].handlers[0].body
+    need(len(hnd) == 1 and isinstance(hnd[0], ast.If)
+         and ast.unparse(hnd[0].test) == "str(e) == 'An event with the same name has already been scheduled.'"
+         and ast.unparse(hnd[0].body[-1]) == 'self.events[name] = event' and ast.unparse(hnd[0].orelse[0]) == 'raise',
+         '_restoreEvents: handling of the already-scheduled case changed')
+    need(ast.unparse(asserts[0].msg) == "'An event with the same name has already been scheduled.'",
+         'addEvent: the assertion message _restoreEvents compares with changed')
+    branch = ltry[0].body
+    need(len(branch) == 1 and isinstance(branch[0], ast.If) and ast.unparse(branch[0].test) == "event['type'] == 'single'",
+         '_restoreEvents: single/repeat dispatch changed')
+    single = branch[0].body
+    need(ast.unparse(single[0]) == 'n = None' and isinstance(single[1], ast.If)
+         and ast.unparse(single[1].test) == 'schedule.schedule.counter > int(name)'
+         and [ast.unparse(x) for x in single[1].body] == ['n = int(name)'], '_restoreEvents: computation of the old id n changed')
+    acalls = [c for c in _calls(branch[0], '_add') if c in [x for st in single for x in ast.walk(st)]]
+    need(len(acalls) == 1, '_restoreEvents: expected one self._add(...) call in the single branch')
+    pos = [ast.unparse(a) for a in acalls[0].args]
+    kws = dict((k.arg, ast.unparse(k.value)) for k in acalls[0].keywords)
+    head = ['network', "event['msg']", "event['time']", "event['command']"]
+    need(pos[:4] == head, '_restoreEvents: leading arguments of self._add changed: %r' % pos)
+    rem_ok = (pos[4:5] == ['is_reminder']) or kws.get('is_reminder') == 'is_reminder'
+    need(rem_ok, '_restoreEvents: is_reminder is not passed to self._add')
+    need(set(kws) <= {'is_reminder', 'name'} and len(pos) <= 6, '_restoreEvents: unexpected arguments of self._add')
+    passes_id = (pos[5:6] == ['n']) or kws.get('name') == 'n'
+    need(passes_id or (len(pos) <= 5 and 'name' not in kws), '_restoreEvents: self._add gets something else than n as name')
+    rcalls = _calls(branch[0].orelse[0], '_repeat')
+    need(len(rcalls) == 1 and [ast.unparse(a) for a in rcalls[0].args] ==
+         ['network', "event['msg']", 'name', "event['time']", "event['command']", 'first_run', 'next_run_in'],
+         '_restoreEvents: self._repeat call changed')
+    padd = find_def(pt, '_add', 'Scheduler')
+    need([a.arg for a in padd.args.args] == ['self', 'network', 'msg', 't', 'command', 'is_reminder', 'name'],
+         'Scheduler._add: parameters changed')
+    need(any(ast.unparse(x) == 'id = schedule.addEvent(f, t, name)' for x in padd.body)
+         and any(ast.unparse(x).startswith('self.events[str(id)] = ') for x in padd.body), 'Scheduler._add: id handling changed')
+    prep = find_def(pt, '_repeat', 'Scheduler')
+    need(any(ast.unparse(x) == 'id = schedule.addEvent(f_wrapper, time.time() + next_run_in, name)' for x in prep.body)
+         and any(ast.unparse(x) == 'f_wrapper = schedule.schedule.makePeriodicWrapper(f, seconds, name)' for x in prep.body),
+         'Scheduler._repeat: scheduling changed')
+    mk = find_def(pt, '_makeCommandFunction', 'Scheduler')
+    need('if remove:\n            del self.events[str(f.eventId)]\n        self.Proxy(irc, msg, tokens)' in ast.unparse(mk),
+         'Scheduler._makeCommandFunction: delete-then-run changed')
     out = 'Definition RUN_CMP_STRICT : bool := %s.\n' % cbool(strict)
     out += 'Definition RESCHED_PASSES_ARGS : bool := %s.\n' % cbool(passes)
     out += 'Definition WRAPPER_RETURNS_IN_FINALLY : bool := %s.\n' % cbool(returns)
     out += 'Definition RUN_LOG_INTERPOLATES_NAME : bool := %s.\n' % cbool(interpolates)
     out += 'Definition RUN_LOG_DIRECTIVES : N := %d.\n' % directives
-    return 'src/schedule.py', out
+    out += 'Definition RESTORE_PASSES_ID : bool := %s.\n' % cbool(passes_id)
+    return 'src/schedule.py + plugins/Scheduler/plugin.py', out
